@@ -48,10 +48,13 @@ A_OPS = {
     'set-singleton': ('set', dict(name='g', options={'numprocesses': 3}, waiting=True)),
     'add-start': ('add', dict(name='c', cmd='w_c', start=True, waiting=True)),
     'add-dup': ('add', dict(name='A', cmd='w_dup', start=True, waiting=True)),
+    'add-start-slow': ('add', dict(name='c', cmd='w_c', start=True, waiting=True,
+                                   options={'numprocesses': 3, 'warmup_delay': 0.5})),
     'rm': ('rm', dict(name='b', waiting=True)),
     'incr-bad-nb': ('incr', dict(name='a', nb='x', waiting=True)),
     'start-hookfail': ('start', dict(name='h', waiting=True)),
     'start-execfail': ('start', dict(name='e', waiting=True)),
+    'start-hook-sysexit': ('start', dict(name='x', waiting=True)),
     'stop-all': ('stop', dict(waiting=True)),
     'start-all': ('start', dict(waiting=True)),
     'restart-glob': ('restart', dict(name='*', waiting=True)),
@@ -95,6 +98,8 @@ def base_spec(rnd=None):
                  'hooks': {'after_start': ['raise', False]}},
                 {'name': 'e', 'numprocesses': 1, 'autostart': False, 'max_retry': 2, 'graceful_timeout': 0.1,
                  'cmd': 'w_e'},
+                {'name': 'x', 'numprocesses': 1, 'autostart': False, 'graceful_timeout': 0.1,
+                 'hooks': {'before_start': ['exit', False]}},
                 {'name': 'p', 'numprocesses': 1, 'graceful_timeout': 0.1},
                 {'name': 'L', 'numprocesses': 4, 'graceful_timeout': 0.1, 'warmup_delay': 2.5}],
             'arb': {'warmup_delay': 0.0 if rnd is None else rnd.choice([0, 0.1])}}
@@ -186,11 +191,17 @@ def worker_init():
 
         def work(self, *a, **kw):
             w = sim.cur()
-            if w is None or not hasattr(w, 'nest') or not w.nest['tokens']:
+            if w is None or not hasattr(w, 'nest'):
                 return orig(self, *a, **kw)
-            ent = (name, w.nest['tokens'][-1])
+            # (work started while no exclusive operation is in flight has no owner: the next accepted operation
+            # would run beside it)
+            ent = (name, w.nest['tokens'][-1] if w.nest['tokens'] else None)
             w.nest['work'].append(ent)
-            resp = orig(self, *a, **kw)
+            try:
+                resp = orig(self, *a, **kw)
+            except BaseException:
+                w.nest['work'].remove(ent)
+                raise
 
             def fin(_f=None):
                 if ent in w.nest['work']:
